@@ -323,6 +323,7 @@ func doReset(line string, w []string) {
 	ptttype.OLDRECOMMEND = old
 	ptttype.EDITPOST_SMARTMERGE = smart
 	smartWant = smart
+	oldWant = old
 	cache.Shm.Shm.Total[bidWhoAmI.ToBidInStore()] = 0
 	if err := cache.SetBTotal(bidWhoAmI); err != nil {
 		fatal("SetBTotal: %v", err)
@@ -1125,6 +1126,56 @@ func doZone(line string, w []string) {
 	run.Op(line, "ok", "zone:"+w[1], false)
 }
 
+// confKeys: bool switches of ptttype/config.go that the harness sets through the real configuration path (none of
+// them is read by the harness or by the comment path except the first two).
+var confKeys = map[string]*bool{"OLDRECOMMEND": &ptttype.OLDRECOMMEND, "EDITPOST_SMARTMERGE": &ptttype.EDITPOST_SMARTMERGE,
+	"GUESTRECOMMEND": &ptttype.GUESTRECOMMEND, "PLAY_ANGEL": &ptttype.PLAY_ANGEL, "USE_AUTOCPLOG": &ptttype.USE_AUTOCPLOG,
+	"DEFAULT_AUTOCPLOG": &ptttype.DEFAULT_AUTOCPLOG, "NOKILLWATERBALL": &ptttype.NOKILLWATERBALL, "ALL_REEDIT_LOG": &ptttype.ALL_REEDIT_LOG,
+	"MULTI_WELCOME_LOGIN": &ptttype.MULTI_WELCOME_LOGIN, "BMCHS": &ptttype.BMCHS, "USE_EDIT_HISTORY": &ptttype.USE_EDIT_HISTORY,
+	"USE_COMMENTD": &ptttype.USE_COMMENTD}
+
+var (
+	confSet = map[string]bool{} // what the deployment's configuration sets (viper overrides are sticky)
+	oldWant bool                // the comment layout the site asked for: the reset's value, or what is set under OLDRECOMMEND
+)
+
+// doConf: the deployment sets [go-pttbbs:ptttype] KEY = v (viper), then ptttype.InitConfig runs as at server start.
+// P-hat (independent of the model): the comment layout switch follows the key OLDRECOMMEND and the append-path switch
+// the key EDITPOST_SMARTMERGE, and nothing else.
+func doConf(line string, w []string) {
+	if len(w) != 3 || len(tickets) > 0 || confKeys[w[1]] == nil || (w[2] != "0" && w[2] != "1") {
+		bad(line)
+		return
+	}
+	home := ptttype.BBSHOME
+	viper.Set("go-pttbbs:ptttype."+strings.ToLower(w[1]), w[2] == "1")
+	confSet[w[1]] = w[2] == "1"
+	if err := ptttype.InitConfig(); err != nil {
+		fatal("ptttype.InitConfig: %v", err)
+	}
+	if ptttype.BBSHOME != home {
+		fatal("ptttype.InitConfig moved BBSHOME from %q to %q", home, ptttype.BBSHOME)
+	}
+	if v, ok := confSet["OLDRECOMMEND"]; ok {
+		oldWant = v
+	}
+	if v, ok := confSet["EDITPOST_SMARTMERGE"]; ok {
+		smartWant = v
+	}
+	b := func(x bool) int {
+		if x {
+			return 1
+		}
+		return 0
+	}
+	out := fmt.Sprintf("ok old=%d smart=%d", b(ptttype.OLDRECOMMEND), b(ptttype.EDITPOST_SMARTMERGE))
+	idx := run.Op(line, out, "conf:"+w[1]+"="+w[2], true)
+	if ptttype.OLDRECOMMEND != oldWant || ptttype.EDITPOST_SMARTMERGE != smartWant {
+		run.Fail(idx, "config:switch-follows-other-key", fmt.Sprintf("the site configuration sets %v; after ptttype.InitConfig OLDRECOMMEND=%v (asked for: %v), EDITPOST_SMARTMERGE=%v (asked for: %v)",
+			confSet, ptttype.OLDRECOMMEND, oldWant, ptttype.EDITPOST_SMARTMERGE, smartWant))
+	}
+}
+
 // doRedir: another tool (expire, compaction) rewrites the board index: temp file + rename, then the board's
 // article count is refreshed.  Allowed while commenters are held between their lookup and their update.
 func doRedir(line string, w []string) {
@@ -1400,7 +1451,7 @@ func judgeShape(failf func(string, string, ...interface{}), line []byte, ctype u
 	}
 	// Big5 marks of pttbbs: push = b1c0, boo = bc4e, arrow = a1f7
 	marks := map[uint64][]byte{1: {0xb1, 0xc0}, 2: {0xbc, 0x4e}, 3: {0xa1, 0xf7}}
-	if m, ok := marks[ctype]; ok && !ptttype.OLDRECOMMEND {
+	if m, ok := marks[ctype]; ok && !oldWant {
 		if !(len(body) > 9 && body[0] == 0x1b && bytes.Equal(body[7:9], m)) {
 			failf("append:shape", "type %d: the line does not start with colour + mark %x", ctype, m)
 		}
@@ -1448,6 +1499,8 @@ func execLine(line string) {
 		doStamp(line, w)
 	case "zone":
 		doZone(line, w)
+	case "conf":
+		doConf(line, w)
 	case "redir":
 		doRedir(line, w)
 	case "mark":
